@@ -70,7 +70,9 @@ def run(ctx):
     total(ctx, read_ndjson(pe), "edits", False)
     # (e) well-formed programs: the direction-A families of the other properties (every construct, builtin, argument class, nesting shape, renaming)
     progs = []
-    for fam, stride in (("FamC01", 9), ("FamC02", 2), ("FamC03", 5), ("FamC04", 2), ("FamC08", 23), ("FamC10", 11), ("FamC16", 1), ("FamC17", 3), ("FamC18", 1)):
+    # FamC06/FamC07 hold the ill-typed and ill-scoped programs too: every typed position x every offered expression (calls without / with several results,
+    # command calls, slices, nil, parenthesised forms), value lists, returns at every depth, every definition and use site
+    for fam, stride in (("FamC01", 9), ("FamC02", 2), ("FamC03", 5), ("FamC04", 2), ("FamC06", 2), ("FamC07", 3), ("FamC08", 23), ("FamC10", 11), ("FamC16", 1), ("FamC17", 3), ("FamC18", 1)):
         cs = ctx.tlc_family(fam, constants={"Tier": '"quick"'}, timeout=3000)
         cs.sort(key=lambda c: c["id"])
         for c in cs[::(stride if quick else 1)]:
